@@ -21,7 +21,7 @@ func init() {
 			"(1) discharged by a sound local rule: a forward must-dataflow of guard facts (index < len(S), len(S) >= k, v >= 0, emptiness tests, switch on len, loop and range headers, the hasNext predicate inlined as a summary, HasPrefix with a constant, same-variable re-loads with no intervening write), kind tests before value.(string) using the node-kind invariants (R-KIND of C01), comma-ok forms, divisor != 0, one interface operand of comparable static type, sizes that are len(x) or len(x)+c or guarded non-negative; " +
 			"(2) invariant-governed: the index is a compile-time table value (nodes[i], os[osTop+k], parentIdx[i], f[prev], the four children of an `if` node …) in Eval, TryEval, calAndSet*, Dump*, DumpTable*, parentNode, reportEvent, calculateNodeCosts: enumerated, listed with the invariant's name, NOT decided, never an alarm; (3) frozen-table: sites in input-facing code whose safety needs arithmetic the dataflow does not do, confirmed by reading, keyed by rule + function + operand shape with one line of reason each; (4) violated: an input-facing obligation that is neither discharged nor in the table — this is what a deleted guard produces. " +
 			"(R-TYPEERR / R-ARITY / R-IFACEEQ / R-DIV0 as in C18) for all built-ins; (R-NILNIL) at every return of Compile either the error is non-nil or the *Expr is a fresh allocation; (R-NOFAIL) no panic, os.Exit, log.Fatal, go statement in the closure and optimizers have no failure channel; (R-STATELESS-TABLE) as in C10. " +
-			"NOT decided: termination of the lexer/parser loops and recursion, 'positions strictly increasing' (depends on scIdx > i, a table value), blocking on an unconsumed EventChan (a precondition of event mode), everything in class 2.",
+			"NOT decided: termination of the lexer/parser loops and recursion, 'positions strictly increasing' (depends on scIdx > i, a table value), blocking on an unconsumed EventChan (a precondition of event mode), everything in class 2. (R-ERRDROP) no return of the API closure yields a nil error on the non-nil edge of an error obtained from a call: a swallowed parser error is how a nil node reaches a dereference, which the ledger itself does not model.",
 		Run:       runC06,
 		Witnesses: c06Witnesses,
 	})
@@ -116,6 +116,7 @@ func runC06(w *World, r *Report) {
 	ruleTypeErr(w, r)
 	ruleNilNil(w, r)
 	ruleNoFail(w, r, set)
+	ruleErrDrop(w, r, set)
 	ruleCondArg(w, r)
 	// the invariant-governed sites of the evaluators (operand stack, operand vectors) rest on the
 	// capacity rules of C09: a violation there is a panic here
@@ -254,6 +255,12 @@ var _ = sort.Strings
 var _ = token.ADD
 
 var c06Witnesses = []Witness{
+	{Name: "parse-drops-lexer-error", Rule: "R-ERRDROP", Edits: []Edit{
+		{File: "parser.go", Old: "	err := p.lex()\n	if err != nil {\n		return nil, nil, err\n	}", New: "	err := p.lex()\n	if err != nil {\n		return nil, nil, nil\n	}"}}},
+	{Name: "evalbool-drops-eval-error", Rule: "R-ERRDROP", Edits: []Edit{
+		{File: "engine.go", Old: "	res, err := e.Eval(ctx)\n	if err != nil {\n		return false, err\n	}\n	b, ok := res.(bool)", New: "	res, err := e.Eval(ctx)\n	if err != nil {\n		return false, nil\n	}\n	b, ok := res.(bool)"}}},
+	{Name: "leaf-dispatch-drops-parser-error", Rule: "R-ERRDROP", Edits: []Edit{
+		{File: "parser.go", Old: "		if ast != nil || err != nil {\n			return ast, err\n		}", New: "		if ast != nil || err != nil {\n			return ast, nil\n		}"}}},
 	{Name: "sort-comparator-indexes-past-own-index", Rule: "R-PANIC", Edits: []Edit{
 		{File: "compiler.go", Old: "		return root.children[i].cost < root.children[j].cost", New: "		return root.children[i].cost < root.children[j+1].cost"}}},
 	{Name: "sort-comparator-indexes-other-slice", Rule: "R-PANIC", Edits: []Edit{
@@ -301,4 +308,77 @@ var c06Witnesses = []Witness{
 		{File: "parser.go", Old: "func (p *parser) peek() (token, error) {\n	if !p.hasNext() {\n		return token{}, p.errNoNextToken()\n	}\n", New: "func (p *parser) peek() (token, error) {\n	if p.idx >= len(p.tokens) {\n		return token{}, p.errNoNextToken()\n	}\n"}}},
 	{Name: "benign-pop-guard-respelled", Benign: true, Edits: []Edit{
 		{File: "parser.go", Old: "			l := len(outputStack)\n			if l == 0 {\n				return nil\n			}\n", New: "			l := len(outputStack)\n			if l < 1 {\n				return nil\n			}\n"}}},
+}
+
+// ---- R-ERRDROP ------------------------------------------------------------------
+
+// errDropAllowed: functions of the pinned tree that deliberately turn a failed attempt into "no answer" — each
+// confirmed by reading (key: function | callee whose error is dropped).
+var errDropAllowed = map[string]string{}
+
+// ruleErrDrop: an error that a function has just found to be non-nil is not turned into success. In every function
+// of the API closure whose last result is an error: a return that yields a nil error must not lie on the
+// `err != nil` edge of an error value obtained from a call — there the function has to report an error (that one or
+// another non-nil one). Dropping it makes the caller go on with a missing node or value: the parser's callers
+// dereference the node they are handed whenever the error is nil.
+func ruleErrDrop(w *World, r *Report, set map[*ssa.Function]bool) {
+	const rule = "R-ERRDROP"
+	r.Rule(rule, "in the API closure no return reports success (nil error) on the non-nil edge of an error obtained from a call, except the listed deliberate 'no answer' conversions", 40)
+	for _, fn := range w.SortedFuncs(set) {
+		res := fn.Signature.Results()
+		if res.Len() == 0 || !isErrorType(res.At(res.Len()-1).Type()) {
+			continue
+		}
+		name := w.Name(fn)
+		for _, ret := range allReturns(fn) {
+			ev := ret.Results[len(ret.Results)-1]
+			// the error values known to be non-nil here
+			var known []ssa.Value
+			seenK := map[ssa.Value]bool{}
+			collect := func(facts []Fact) {
+				for _, f := range facts {
+					x, isNil, ok := factIsNil(f)
+					if !ok || isNil || !isErrorType(x.Type()) || seenK[x] {
+						continue
+					}
+					seenK[x] = true
+					known = append(known, x)
+				}
+			}
+			collect(factsAtLocal(ret.Block()))
+			// `if node != nil || err != nil { return … }`: the failing edge is one of several ways in
+			if len(ret.Block().Preds) > 1 {
+				for _, p := range ret.Block().Preds {
+					collect(factsAtEdgeTo(p, ret.Block()))
+				}
+			}
+			pos := w.InstrPos(ret)
+			if len(known) == 0 {
+				r.OK(rule, pos, name, "return …, "+describe(ev), "no error is known to be non-nil on this path")
+				continue
+			}
+			if !isNilConst(ev) {
+				r.OK(rule, pos, name, "return …, "+describe(ev), "an error is reported on the failing edge")
+				continue
+			}
+			for _, x := range known {
+				callee := "?"
+				if ex, ok := x.(*ssa.Extract); ok {
+					if c, okc := ex.Tuple.(*ssa.Call); okc {
+						callee = calleeFullName(&c.Call)
+						if callee == "" {
+							callee = "dynamic call"
+						}
+					}
+				} else if c, okc := x.(*ssa.Call); okc {
+					callee = calleeFullName(&c.Call)
+				}
+				if why, ok := errDropAllowed[name+"|"+callee]; ok {
+					r.Add(Obligation{Rule: rule, Pos: pos, Func: name, What: "return …, nil after " + callee + " failed", Verdict: Discharged, Why: "listed: " + why})
+					continue
+				}
+				r.Fail(rule, pos, name, "return …, nil after "+callee+" failed", "the function has just found this error to be non-nil and reports success: the caller continues with a missing result (a nil node is dereferenced, a malformed source compiles)")
+			}
+		}
+	}
 }
